@@ -965,6 +965,7 @@ func checkC12(w *World, r *Report) {
 	r.Explain = "Width-exchange discipline (E8), decided structurally on SSA with path enumeration: WC.Format computes max(W, text width) (+1 extra space only when W does not apply), and under the sync bit sends exactly that value then receives the column width, which it returns and fills to; every Decor of the decor package performs exactly one exchange per path and returns its width (wrappers route their message through the wrapped Format); the distributor collects one width per column entry keeping the maximum under the guard received > max and sends it back on every entry; wSyncTable visits every decorator of both groups once, in order, and splits at the group boundary; the heap loop's push arm accumulates the re-sync flag, its sync arm rebuilds both matrices from every heap element exactly under sync || len changed, resets both cached values and launches one distributor per column of both matrices; new bars are pushed with sync=true. Decides these necessary conditions on every path; numeric equality of rendered widths is not computed."
 	r.Assume = append(r.Assume, "runewidth.StringWidth/FillLeft/FillRight behave as documented", "one decorator instance per bar")
 	ruleFormatExchange(w, r, "C12")
+	ruleInitChannel(w, r, "C12")
 	ruleDistributor(w, r, "C12")
 	ruleDecorExchange(w, r, "C12")
 	ruleWrappersUnwrap(w, r, "C12")
@@ -1119,4 +1120,83 @@ func (w *World) loopCoversGroups(l *loopInfo) bool {
 		}
 	}
 	return false
+}
+
+
+// ruleInitChannel (E-INIT): WC.Init gives every initialised width configuration that asks for
+// synchronisation its own fresh unbuffered channel: on every path with the sync bit set the
+// channel field is overwritten with a new make(chan int), unconditionally. (Reusing an existing
+// channel makes copies of one initialised WC - the documented way to share a configuration
+// between bars - share one column channel: widths cross between bars and a distributor starves.)
+func ruleInitChannel(w *World, r *Report, pfx string) {
+	rule := pfx + ".E-INIT"
+	fn := w.Func("decor.(*WC).Init")
+	if fn == nil {
+		r.Unresolved("anchor", "decor.(*WC).Init", "not found")
+		return
+	}
+	syncBit := int64(-1)
+	if m, ok := w.Decor.Members["DSyncWidth"].(*ssa.NamedConst); ok {
+		if k, ok := constInt(m.Value); ok {
+			syncBit = k
+		}
+	}
+	if syncBit < 0 {
+		r.Unresolved("anchor", "decor.DSyncWidth", "constant not found")
+		return
+	}
+	// atom: (C & DSyncWidth) != 0
+	isSyncTest := func(v Val) bool {
+		and, ok := v.V.(*ssa.BinOp)
+		if !ok || and.Op != token.AND {
+			return false
+		}
+		k, okK := constInt(and.Y)
+		x := and.X
+		if !okK {
+			k, okK = constInt(and.X)
+			x = and.Y
+		}
+		return okK && k == syncBit && isLoad(Val{V: x}, "decor.WC", "C")
+	}
+	bad := ""
+	sawSync, sawPlain := false, false
+	nP, over := w.enumPaths(fn, pathOpts{InlineDepth: 2, Inline: w.helperInline(fn)}, func(p *Path) {
+		if p.Exit != "return" || bad != "" {
+			return
+		}
+		on := p.hasCmp(-1, token.NEQ, isSyncTest, isConstInt(0))
+		off := p.hasCmp(-1, token.EQL, isSyncTest, isConstInt(0))
+		st := p.storesTo("decor.WC", "wsync")
+		switch {
+		case on:
+			sawSync = true
+			if len(st) != 1 {
+				bad = "a path with the sync bit set does not install a channel (or installs it more than once): an already initialised configuration keeps its old channel, so copies share one column channel"
+				return
+			}
+			mc, ok := p.R(st[0].Val).V.(*ssa.MakeChan)
+			if !ok {
+				bad = "the installed channel is not a fresh make(chan int)"
+				return
+			}
+			if k, ok := constInt(mc.Size); !ok || k != 0 {
+				bad = "the width channel must be unbuffered (the exchange is a rendezvous with the column's distributor)"
+			}
+		case off:
+			sawPlain = true
+			if len(st) != 0 {
+				bad = "a channel is installed although synchronisation was not requested"
+			}
+		default:
+			if len(st) != 0 {
+				bad = "the channel is installed on a path that does not test the sync bit"
+			}
+		}
+	})
+	if over {
+		r.Undecided(rule, "decor.(*WC).Init", w.pos(fn.Pos()), "path cap")
+		return
+	}
+	r.Check(bad == "" && nP > 0 && sawSync && sawPlain, rule, "decor.(*WC).Init", w.pos(fn.Pos()), "fresh unbuffered channel exactly on the paths with the sync bit", orStr(bad, "branch missing"))
 }
